@@ -5,8 +5,8 @@
     unwound, leaving the raw parts and the shared length as they are at that moment;
     the world is dropped afterwards.  Proved safe: dropping a world, overwriting a
     component (Entry::add on a present component, writes through &mut views, resource
-    writes), clear (finding F8b, repaired).  Refuted with a witness (finding F8a): remove.
-    PARTIAL: clone_from (finding F8c), clone, serialization, equality, Debug, the shape
+    writes), clear (finding F8b, repaired), remove (finding F8a, repaired).
+    PARTIAL: clone_from (findings F8c and F11, repaired), clone, serialization, equality, Debug, the shape
     changes of Entry::add/remove and system bodies have no fault model here; they are
     judged by fault injection on the real code (every callback kind, every position). *)
 From Brood Require Import Base World Multi Phys BaseFacts PhysFacts.
@@ -30,19 +30,28 @@ Check (C17_overwrite : forall a r c v f a' evs p f', Clean a -> p_set a r c v f 
   double_drops evs = [] /\ double_drops (fst (p_drop_arch a' f')) = []).
 Print Assumptions C17_overwrite.
 
-(** Without a panic the in-place operations are safe (so every failure below needs the fault). *)
-Theorem C17_no_fault_safe : forall a i a' evs p, Clean a -> p_remove_row a i None = Some (a', evs, p) ->
-  double_drops evs = [] /\ double_drops (fst (p_drop_arch a' None)) = [].
-Proof.
-  intros a i a' evs p HC H. destruct (remove_row_clean a i a' evs p HC H) as (_ & HC' & _ & D).
-  split; [exact D|]. exact (drop_clean_no_double a' None HC').
-Qed.
-Print Assumptions C17_no_fault_safe.
+(** A panic in any Drop during [remove] (World::remove): the row has left every column, the identifier
+    column and the shared length before the first Drop runs, so the archetype is clean and one row shorter
+    whatever callback panics, and nothing is dropped twice then or when the world is dropped.  This is
+    finding F8a REPAIRED; both orderings are read off the source ([fact_remove_defers_drops],
+    [fact_remove_decrements_length_first]). *)
+Theorem C17_remove : forall a i f f' a' evs p, Clean a -> p_remove_row a i f = Some (a', evs, p) ->
+  Clean a' /\ pa_len a' = pa_len a - 1 /\ double_drops evs = [] /\ double_drops (fst (p_drop_arch a' f')) = [].
+Proof. exact remove_fault_safe_src. Qed.
+Check (C17_remove : forall a i f f' a' evs p, Clean a -> p_remove_row a i f = Some (a', evs, p) ->
+  Clean a' /\ pa_len a' = pa_len a - 1 /\ double_drops evs = [] /\ double_drops (fst (p_drop_arch a' f')) = []).
+Print Assumptions C17_remove.
 
-(** Finding F8a (class K17a), kept visible: a panic in a Drop during remove. *)
-Theorem C17_remove_refuted :
+(** the hypothesis is met: a removal with a panicking Drop does return a state *)
+Example C17_remove_nonvacuous :
+  exists a' evs, p_remove_row w_arch 0 (Some 0) = Some (a', evs, true) /\ pa_len a' = 2.
+Proof. vm_compute. eauto. Qed.
+
+(** ... as it was before the repair (finding F8a, class K17a): values dropped column by column, the length
+    written last: the moved last cell is dropped a second time when the world is dropped. *)
+Theorem C17_remove_F8a_before_the_repair :
   exists a i k, Clean a /\
-    match p_remove_row a i (Some k) with
+    match p_remove_row_gen false false a i (Some k) with
     | Some (a', _, unwound) => unwound = true /\ double_drops (fst (p_drop_arch a' None)) <> []
     | None => False
     end.
@@ -50,10 +59,10 @@ Proof.
   exists w_arch, 0, 0. split.
   - split; [reflexivity|]. intros col [<-|[<-|[]]] r Hr; cbn in Hr;
       destruct r as [|[|[|r]]]; try lia; cbn; eauto.
-  - pose proof remove_fault_double_drop as H. destruct (p_remove_row w_arch 0 (Some 0)) as [[[a' e] u]|]; [|exact H].
+  - pose proof remove_fault_double_drop as H. destruct (p_remove_row_gen false false w_arch 0 (Some 0)) as [[[a' e] u]|]; [|exact H].
     destruct H as [H1 H2]. split; [exact H1|]. rewrite H2. discriminate.
 Qed.
-Print Assumptions C17_remove_refuted.
+Print Assumptions C17_remove_F8a_before_the_repair.
 
 (** A panic in any Drop during [clear] (World::clear, and the clearing of a destination-only archetype by
     clone_from): the archetype is left empty, the values not dropped yet are leaked, nothing is dropped
